@@ -29,6 +29,7 @@ RULE = (
     "valid write."
     ' Environment of a history: channel path length (150-600 characters) and grammar-like directory names, current directory inside the channel / top directory, relative and decorated path spellings (with a change of directory before reads), one reader kept open over the whole history (polling queries), refused calls repeated 40 times with few file descriptors to spare, finalized files turned into symbolic links, the properties file regenerated or emptied between sessions.'
 )
+RULE += " Since rounds 7-8: permission bits on earlier sessions' files (0444 / 0200 / 0000, enforced because the check drops root's override), the same path string objects handed to every session (absolute with a trailing slash), vector reads over stretches written without a gap, a recording continued on a second directory in the middle of a file period."
 ASSUMPTIONS = ["one session is open at a time", "overlay build against system HDF5 1.10.8"]
 FLOORS = {"nontrivial": 0.25}
 MISMATCH = ["kind", "size", "order", "S", "F", "n", "d", "cplx", "nsub", "cont", "nd-equiv", "nd-equiv", "F+emptied-properties", "n+emptied-properties"]
